@@ -109,6 +109,9 @@ SEPS = ["-", "/", ":", "T", " ", "_", ".", ",", ""]
 def lossless_format(rng, off_has_seconds):
     year = rng.choice(["%Y", "%Y", "%E4Y"])
     date = [year, "%m", "%d"]
+    if rng.random() < 0.15:
+        # the date through a week number and a weekday (the year must be the full %Y)
+        date = ["%Y"] + rng.choice([["%U", "%w"], ["%W", "%u"], ["%U", "%u"], ["%W", "%w"]])
     secs = rng.choice([["%E*S"], ["%S", ".", "%E*f"], ["%E15S"], ["%E18S"], ["%S", ",", "%E15f"]])
     tm = ["%H", "%M"] + secs
     offs = rng.choice(["%E*z", "%::z", "%:::z"] if off_has_seconds or rng.random() < 0.5 else ["%Ez", "%:z", "%z"])
@@ -150,7 +153,8 @@ def gen_c07(tier, rng):
         for _ in range(n):
             f = lossless_format(rng, True if rng.random() < 0.6 else False)
             cases.append("fp %s %s %d %d%s" % (zid, hx(f), rng.choice(ts), rng.choice(FS), pz()))
-        for f in ("%Y-%m-%dT%H:%M:%E*S%E*z", "%Y-%m-%d %H:%M:%S.%E*f %::z", "%s", "%E4Y/%m/%d %H:%M:%E15S %:::z"):
+        for f in ("%Y-%m-%dT%H:%M:%E*S%E*z", "%Y-%m-%d %H:%M:%S.%E*f %::z", "%s", "%E4Y/%m/%d %H:%M:%E15S %:::z",
+                  "%Y week %U day %w %H:%M:%E*S %E*z", "%Y-W%W-%u %H:%M:%E*S %E*z"):
             for t in ts:
                 cases.append("fp %s %s %d %d%s" % (zid, hx(f), t, rng.choice(FS), pz()))
             # the two ends of the range with every kind of parse zone (parse()'s overflow checks consult a zone)
